@@ -2,7 +2,7 @@
 TLC against PosterTrace.tla, aggregate per-run verdicts, apply known findings, write evidence."""
 import json, os, subprocess, sys, time, shutil, re, hashlib, concurrent.futures
 
-VERIF = "/verif"
+VERIF = os.path.dirname(os.path.dirname(os.path.abspath(__file__)))   # /verif, or a snapshot of it (vp run)
 HARNESS = os.path.join(VERIF, "harness")
 SPEC = os.path.join(VERIF, "spec")
 OUT = os.path.join(VERIF, "out")
